@@ -64,3 +64,78 @@ package mux
 //@ func (d *Demuxer) GetChunk
 //@   property C05
 //@   requires d != nil
+//
+// ---- C14: what the muxer writes is what its size fields announce ----
+//
+//@ pure func padded(n uint32) uint32 = n + (n & 1)
+//@ pure func le32at(i int) uint32 = uint32(wlog(i)) | uint32(wlog(i+1))<<8 | uint32(wlog(i+2))<<16 | uint32(wlog(i+3))<<24
+//
+//@ func chunkTotalSize
+//@   property C14 C02
+//@   requires payloadSize <= 0xFFFFFFF6
+//@   modifies nothing
+//@   ensures result == 8 + padded(payloadSize)
+//
+//@ func frameSubChunksSize
+//@   property C14
+//@   requires len(alphaData) <= 0x7fffffff && len(bitstream) <= 0x7fffffff
+//@   modifies nothing
+//@   ensures alphaData == nil ==> result == 8 + padded(uint32(len(bitstream)))
+//@   ensures alphaData != nil ==> result == 8 + padded(uint32(len(alphaData))) + 8 + padded(uint32(len(bitstream)))
+//
+//@ func putLE24
+//@   property C14 C05
+//@   requires len(buf) >= 3
+//@   modifies buf[:3]
+//@   ensures buf[0] == uint8(v) && buf[1] == uint8(v >> 8) && buf[2] == uint8(v >> 16)
+//
+//@ func writeChunkHeader
+//@   property C14 C05
+//@   requires len(buf) >= 8
+//@   modifies buf[:8]
+//@   ensures buf[0] == uint8(id) && buf[1] == uint8(id >> 8) && buf[2] == uint8(id >> 16) && buf[3] == uint8(id >> 24)
+//@   ensures buf[4] == uint8(size) && buf[5] == uint8(size >> 8) && buf[6] == uint8(size >> 16) && buf[7] == uint8(size >> 24)
+//
+// A chunk on the wire: FourCC, little-endian payload length, the payload
+// bytes, and one zero byte when the length is odd.
+//@ func writeDataChunk
+//@   property C14 C15
+//@   requires w != nil && len(data) <= 0x7fffffff
+//@   modifies nothing
+//@   ensures result == nil ==> wlen() == old(wlen()) + 8 + len(data) + (len(data) & 1)
+//@   ensures result == nil ==> le32at(old(wlen())) == id && le32at(old(wlen()) + 4) == uint32(len(data))
+//@   ensures result == nil ==> forall k int :: 0 <= k && k < len(data) ==> wlog(old(wlen()) + 8 + k) == data[k]
+//@   ensures result == nil && len(data) % 2 != 0 ==> wlog(old(wlen()) + 8 + len(data)) == 0
+//@   ensures result == nil ==> forall k int :: 0 <= k && k < old(wlen()) ==> wlog(k) == old(wlog(k))
+//
+// The ALPH prefix convention of frame payloads.
+//@ func splitAlphaAndBitstream
+//@   property C14 C18
+//@   modifies nothing
+//@   ensures alphaData != nil ==> len(data) >= 8 && data[0] == 'A' && data[1] == 'L' && data[2] == 'P' && data[3] == 'H'
+//@   ensures alphaData != nil ==> base(alphaData) == base(data) && offset(alphaData) == offset(data) + 8
+//@   ensures alphaData != nil ==> uint32(len(alphaData)) == uint32(data[4]) | uint32(data[5])<<8 | uint32(data[6])<<16 | uint32(data[7])<<24
+//@   ensures alphaData != nil ==> base(bitstream) == base(data) && offset(bitstream) + len(bitstream) == offset(data) + len(data)
+//@   ensures alphaData != nil ==> len(data) - len(bitstream) == 8 + len(alphaData) || len(data) - len(bitstream) == 8 + len(alphaData) + 1
+//@   ensures alphaData != nil && len(alphaData) % 2 != 0 && 8 + len(alphaData) < len(data) ==> len(data) - len(bitstream) == 9 + len(alphaData)
+//@   ensures alphaData == nil ==> bitstream == data
+//
+// One ANMF chunk: 8-byte header whose size field equals the number of payload
+// bytes actually written after it (frame header + sub-chunks), even total.
+//@ func (m *Muxer) writeANMFChunk
+//@   property C14
+//@   requires m != nil && w != nil && len(f.data) <= 0x3fffffff
+//@   modifies nothing
+//@   abstract frameDimensions
+//@   ensures result == nil ==> le32at(old(wlen())) == FourCCANMF
+//@   ensures result == nil ==> wlen() - old(wlen()) == 8 + int(padded(le32at(old(wlen()) + 4)))
+//
+//@ func (m *Muxer) assembleSimple
+//@   property C14 C02
+//@   requires m != nil && w != nil && len(m.frames) >= 1 && len(m.frames[0].data) <= 0x3fffffff
+//@   modifies nothing
+//@   ensures result == nil ==> le32at(old(wlen())) == FourCCRIFF && le32at(old(wlen()) + 8) == FourCCWEBP
+//@   ensures result == nil ==> wlen() - old(wlen()) == 8 + int(le32at(old(wlen()) + 4))
+//@   ensures result == nil ==> le32at(old(wlen()) + 16) == uint32(len(m.frames[0].data))
+//@   ensures result == nil ==> (wlen() - old(wlen())) % 2 == 0
+//@   ensures result == nil ==> forall k int :: 0 <= k && k < len(m.frames[0].data) ==> wlog(old(wlen()) + 20 + k) == m.frames[0].data[k]
